@@ -97,6 +97,7 @@ def run(case):
     with C.scratch() as root:
         gd, written = W.write_world(world, root, knobs)
 
+        C.prelude(world, knobs, root, out['faults'])
         def load(fields, sub, label):
             nonlocal nloads
             nloads += 1
